@@ -102,10 +102,10 @@ impl<T> OneShotShared<T> {
         }
       }
       // If state was WRITING, TAKEN, or CLOSED, wake the receiver if needed.
-      else if self.state.load(Ordering::Relaxed) != STATE_TAKEN
-        && self.state.load(Ordering::Relaxed) != STATE_SENT
-      {
-        // Avoid waking if value is there or taken
+      // (TAKEN included: a recv() polled after the value was taken is pending
+      // until the last sender leaves and must then observe Disconnected.)
+      else if self.state.load(Ordering::Relaxed) != STATE_SENT {
+        // Avoid waking if the value is there
         self.receiver_waker.wake();
       }
     }
